@@ -646,6 +646,13 @@ def _scenarios(tier):
         [("tick",), ("rlogin", "C", "admin", "right"), ("rlogin", "C2", "admin", "right"), ("c_term", "C", "stop"), ("c_term", "C", "start"),
          ("s_term", "stop"), ("s_term", "start"), ("s_power", "off"), ("s_power", "on")],
         handle_kinds=["rcmd", "rlogoff"], max_handles=2, rto=2, lto=2), 9 if T else 6, 400000 if T else 20000, 400 if T else 40))
+    # G: local and remote time-outs that differ from each other (each kind of session ends after ITS time-out)
+    for rto, lto in ((1, 3), (3, 1)):
+        out.append((SessionAdapter(
+            "timeouts-r%dl%d" % (rto, lto),
+            [("tick",), ("rlogin", "C", "admin", "right"), ("local_login", "admin", "right"), ("local_cmd", "admin", "right"),
+             ("rcmd_req", "C")],
+            handle_kinds=["rcmd"], max_handles=2, rto=rto, lto=lto), 7 if T else 5, 200000 if T else 20000, 300 if T else 30))
     if T:
         # F: S takes one step to shut down and one to boot (NICs go down, BOOTING/SHUTTING_DOWN states are visited)
         out.append((SessionAdapter(
